@@ -1165,6 +1165,10 @@ func (h *hworld) restart() {
 	h.hist = append(h.hist, "EXIT+RESTART")
 	old.N.Exit()
 	old.exited = true
+	// a restart takes time: without this the new process would start in the very same
+	// (virtual) millisecond, and its id generator - same node id, sequence back at 0 - would
+	// re-issue the ids of messages that are still around
+	vrt.SleepFor(int64(50 * time.Millisecond))
 	for _, n := range h.consNames() {
 		c := h.cons[n]
 		if c.conn != nil {
